@@ -578,14 +578,8 @@ func (r *c16Runner) script() {
 					r.violate("partial_flag", "request %d: error code %v but partial_response=%v", qi, resp.GetError().GetCode(), resp.GetPartialResponse())
 					return
 				}
-				if late {
-					// the handler's deadline cut the fetch stage: documents it did not wait for come back empty
-					for _, id := range rec.qpr.IDs {
-						if _, ok := r.excused[id.ID]; !ok {
-							r.excused[id.ID] = "the handler's deadline passed"
-						}
-					}
-				}
+				// (a handler whose deadline passed while it was collecting the documents has to say so: documents the stores
+				// would have delivered may not come back empty under status OK)
 				r.check(qi, rq, hot, cold, rec.qpr, &protoDocs{docs: resp.GetDocs()}, perr)
 				return
 			}
